@@ -217,21 +217,148 @@ fn main() {
         }
         Err(_) => ok = false,
     }
+    // data items of the windows block (thread_local!, static, const) that the extracted functions refer to
+    let mut data_items = String::new();
+    if ok {
+        if let Ok(text) = fs::read_to_string(format!("{}/src/popen.rs", repo)) {
+            let src: Vec<char> = text.chars().collect();
+            let start = find_from(&src, "#[cfg(windows)]\nmod os {", 0).unwrap_or(0);
+            let block_end = (start..src.len()).find(|&i| src[i] == '{').and_then(|o| skip_to_matching_brace(&src, o)).unwrap_or(src.len());
+            let block: Vec<char> = src[start..block_end].to_vec();
+            let ident_at = |v: &[char], mut j: usize| -> String {
+                let mut name = String::new();
+                while j < v.len() && (v[j].is_alphanumeric() || v[j] == '_') {
+                    name.push(v[j]);
+                    j += 1;
+                }
+                name
+            };
+            // thread_local! { ... }
+            let mut i = 0;
+            while let Some(at) = find_from(&block, "thread_local!", i) {
+                if let Some(open) = (at..block.len()).find(|&k| block[k] == '{' || block[k] == '(') {
+                    let close = if block[open] == '{' { skip_to_matching_brace(&block, open) } else { (open..block.len()).find(|&k| block[k] == ';') };
+                    if let Some(close) = close {
+                        let item: String = block[at..=close].iter().collect();
+                        // names declared inside
+                        let ic: Vec<char> = item.chars().collect();
+                        let mut used = false;
+                        let mut j = 0;
+                        while let Some(p) = find_from(&ic, "static ", j) {
+                            let name = ident_at(&ic, p + 7);
+                            if !name.is_empty() && gen.contains(&name) {
+                                used = true;
+                            }
+                            j = p + 7;
+                        }
+                        if used {
+                            data_items.push_str(&item);
+                            data_items.push_str("\n");
+                        }
+                        i = close + 1;
+                        continue;
+                    }
+                }
+                i = at + 13;
+            }
+            // static NAME ... ; / const NAME ... ;  (outside functions: preceded by a newline and indentation only)
+            for kw in ["static ", "const "] {
+                let mut i = 0;
+                while let Some(at) = find_from(&block, kw, i) {
+                    i = at + kw.len();
+                    // start of line?
+                    let mut b = at;
+                    while b > 0 && (block[b - 1] == ' ' || block[b - 1] == '\t') {
+                        b -= 1;
+                    }
+                    let line_start = b == 0 || block[b - 1] == '\n';
+                    let pub_prefix = b >= 4 && block[b.saturating_sub(4)..b].iter().collect::<String>() == "pub ";
+                    if !line_start && !pub_prefix {
+                        continue;
+                    }
+                    let name = ident_at(&block, at + kw.len());
+                    if name.is_empty() || name == "fn" || name == "unsafe" || !name.chars().next().unwrap().is_uppercase() || !gen.contains(&name) || data_items.contains(&format!(" {}:", name)) {
+                        continue;
+                    }
+                    // until the ';' at depth 0
+                    let mut depth = 0i32;
+                    let mut k = at;
+                    let mut end = None;
+                    while k < block.len() {
+                        match block[k] {
+                            '{' | '(' | '[' => depth += 1,
+                            '}' | ')' | ']' => depth -= 1,
+                            ';' if depth == 0 => {
+                                end = Some(k);
+                                break;
+                            }
+                            _ => {}
+                        }
+                        k += 1;
+                    }
+                    if let Some(end) = end {
+                        let item: String = block[at..=end].iter().collect();
+                        data_items.push_str(&item);
+                        data_items.push_str("\n");
+                    }
+                }
+            }
+        }
+    }
+    // win32.rs: the conversion of the command line to the NUL-terminated UTF-16 buffer handed to CreateProcessW
+    let mut nullterm = String::new();
+    if let Ok(text) = fs::read_to_string(format!("{}/src/win32.rs", repo)) {
+        let src: Vec<char> = text.chars().collect();
+        if let Some(body) = extract_fn(&src, "to_nullterm", 0) {
+            // constants of the file that the function refers to
+            for kw in ["const ", "static "] {
+                let mut i = 0;
+                while let Some(at) = find_from(&src, kw, i) {
+                    i = at + kw.len();
+                    let line_start = at == 0 || src[at - 1] == '\n' || (at >= 4 && src[at - 4..at].iter().collect::<String>() == "pub ");
+                    let mut name = String::new();
+                    let mut j = at + kw.len();
+                    while j < src.len() && (src[j].is_alphanumeric() || src[j] == '_') {
+                        name.push(src[j]);
+                        j += 1;
+                    }
+                    if !line_start || name.is_empty() || !name.chars().next().unwrap().is_uppercase() || !body.contains(&name) {
+                        continue;
+                    }
+                    if let Some(end) = (at..src.len()).find(|&k| src[k] == ';') {
+                        nullterm.push_str(&src[at..=end].iter().collect::<String>());
+                        nullterm.push('\n');
+                    }
+                }
+            }
+            nullterm.push_str(&body);
+        }
+    }
+    println!("cargo:rerun-if-changed={}/src/win32.rs", repo);
     let mut f = String::new();
     f.push_str("// @generated by build.rs from /repo/src/popen.rs (cfg(windows) items, verbatim)\n");
     if ok {
         f.push_str("pub const EXTRACTED: bool = true;\n");
         f.push_str("#[allow(dead_code, unused_imports, clippy::all)]\nmod items {\n");
         f.push_str("use crate::winshim::{OsStrExt, OsStringExt};\nuse std::collections::HashSet;\nuse std::ffi::{OsStr, OsString};\nuse std::io;\n");
+        f.push_str("use std::cell::{Cell, RefCell};\nuse std::iter;\nuse std::cmp;\nuse std::mem;\n");
         f.push_str("pub mod win32 { pub const ERROR_BAD_PATHNAME: u32 = 161; }\n");
+        f.push_str(&data_items);
         f.push_str(&gen);
+        if !nullterm.is_empty() {
+            f.push_str(&nullterm);
+            f.push_str("\npub fn call_to_nullterm(s: &OsStr) -> Vec<u16> { to_nullterm(s) }\npub const HAS_NULLTERM: bool = true;\n");
+        } else {
+            f.push_str("pub fn call_to_nullterm(_s: &OsStr) -> Vec<u16> { unreachable!() }\npub const HAS_NULLTERM: bool = false;\n");
+        }
         f.push_str("pub fn call_assemble_cmdline(argv: Vec<OsString>) -> io::Result<OsString> { assemble_cmdline(argv) }\n");
         f.push_str("pub fn call_format_env_block(env: &[(OsString, OsString)]) -> Vec<u16> { format_env_block(env) }\n");
-        f.push_str("}\npub use items::{call_assemble_cmdline, call_format_env_block};\n");
+        f.push_str("}\npub use items::{call_assemble_cmdline, call_format_env_block, call_to_nullterm, HAS_NULLTERM};\n");
     } else {
         f.push_str("pub const EXTRACTED: bool = false;\n");
         f.push_str("pub fn call_assemble_cmdline(_argv: Vec<std::ffi::OsString>) -> std::io::Result<std::ffi::OsString> { unreachable!() }\n");
         f.push_str("pub fn call_format_env_block(_env: &[(std::ffi::OsString, std::ffi::OsString)]) -> Vec<u16> { unreachable!() }\n");
+        f.push_str("pub fn call_to_nullterm(_s: &std::ffi::OsStr) -> Vec<u16> { unreachable!() }\npub const HAS_NULLTERM: bool = false;\n");
     }
     fs::write(Path::new(&out).join("win_popen.rs"), f).unwrap();
 
